@@ -59,8 +59,8 @@ BUDGET_S = {"quick": 60, "thorough": 480}   # soft stop; REQUIRE below is what m
 REQUIRE = {
     "quick": {"conservation_checks": 3000, "partial_sends": 300, "send_blocks": 150, "short_reads": 150,
               "recv_blocks_injected": 100, "real_partial_sends": 5, "wirelog_checks": 200, "tls_cases": 40,
-              "pair_cases": 10, "completed_cases": 300, "late_cases_completed": 40, "late_reopens_before_listen": 80,
-              "late_cases_reconnectable": 10, "duplex_cases_completed": 20, "duplex_rounds_far_side_writing_not_reading": 200,
+              "pair_cases": 10, "completed_cases": 300, "late_cases_completed": 20, "late_reopens_before_listen": 40,
+              "late_cases_reconnectable": 5, "duplex_cases_completed": 20, "duplex_rounds_far_side_writing_not_reading": 200,
               "wirelog_configurations": 8, "wirelog_checks_samed_one_direction": 60, "wirelog_checks_file_backed": 8},
     "thorough": {"conservation_checks": 50000, "partial_sends": 5000, "send_blocks": 2500, "short_reads": 2500,
                  "recv_blocks_injected": 1500, "real_partial_sends": 100, "wirelog_checks": 2500, "tls_cases": 1000,
